@@ -64,12 +64,14 @@ PToVV(o)   == Is(o, "view") /\ PDerive(o, "vv", abs[o].b)
 PToPrep(o) == Is(o, "view") /\ PDerive(o, "prep", abs[o].b)      \* entirely used: room 0
 
 \* Prependable: Prepend(n) hands out the n bytes in front iff they fit; the caller
-\* fills them with `data`.  isnil = the call returned nil.
+\* fills them with `data`.  isnil = the call returned nil (for n = 0 nil and empty
+\* mean the same zero bytes: Prepend(0) on a Prependable made from a nil View
+\* returns nil, on any other one an empty slice).
 PPrepend(o, n, data, isnil) ==
     /\ Is(o, "prep") /\ n >= 0 /\ Len(data) = n
     /\ UNCHANGED cut
     /\ IF n <= abs[o].room
-         THEN ~isnil /\ abs' = [abs EXCEPT ![o].b = data \o @, ![o].room = @ - n]
+         THEN (n > 0 => ~isnil) /\ abs' = [abs EXCEPT ![o].b = data \o @, ![o].room = @ - n]
          ELSE isnil /\ UNCHANGED abs
 PPView(o) == Is(o, "prep") /\ PDerive(o, "view", abs[o].b)
 ====
